@@ -1137,7 +1137,7 @@ class Executor(object):
             if k.arg is None:
                 # f(..., **mapping): keywords the analysis does not know.  Only in abstracting mode: every
                 # parameter of the callee that is not passed explicitly may be supplied by the mapping
-                if not getattr(self, "lenient", False):
+                if not getattr(self, "lenient", False) and not getattr(self, "kwargs_passthrough", False):
                     raise Unsupported("**kwargs call")
                 kw["**"] = True
                 continue
